@@ -299,7 +299,18 @@ def special_structs():
     s["Prec"] = dict(name="Prec", fields=[("m", ("named", "MyInt")), ("c", ("ext", "Code")), ("b", ("ext", "Both")), ("p", ("ext", "Plain")), ("d", ("dur",))],
                      classes=["eq", "ord", "hash", "clone"], value=True, tparams=[])
     s["PrecM"] = dict(name="PrecM", fields=[("m", ("named", "MyInt")), ("c", ("ext", "Code")), ("b", ("ext", "Both")), ("n", ("int",))], classes=["monoid"], value=True, tparams=[])
-    return s, ["Node", "Tree", "Big", "Pair", "Phantom", "Leaf", "Holder", "Prec", "PrecM"]
+    kinds = [("int",), ("string",), ("named", "MyInt"), ("opt", ("int",)), ("slice", ("string",))]
+    # the tuple / hlist boundary: 21 fields is the last TupleN, 22 the first hlist representation
+    s["W21"] = dict(name="W21", fields=[("h%d" % i, kinds[i % 5]) for i in range(1, 22)], classes=["eq", "ord", "hash", "monoid", "clone"], value=True, tparams=[])
+    s["W22"] = dict(name="W22", fields=[("h%d" % i, kinds[i % 5]) for i in range(1, 23)], classes=["eq", "hash", "monoid", "clone"], value=True, tparams=[])
+    s["P22"] = dict(name="P22", fields=[("H%d" % i, kinds[i % 5]) for i in range(1, 23)], classes=["eq", "monoid", "clone"], value=False, tparams=[])
+    # recursive=true over a plain struct that mixes exported and unexported fields
+    s["Mixed"] = dict(name="Mixed", fields=[("Pub", ("slice", ("int",))), ("priv", ("map", ("int",))), ("N", ("int",))], classes=[], value=False, tparams=[], nodirective=True)
+    s["Holder2"] = dict(name="Holder2", fields=[("M", ("struct", "Mixed")), ("Ms", ("slice", ("struct", "Mixed"))), ("Mp", ("ptr", ("struct", "Mixed")))], classes=["eq", "clone"],
+                        value=False, tparams=[], recursive_flag=True)
+    # type parameters used in another order than declared
+    s["Rev"] = dict(name="Rev", fields=[("right", ("tparam", "B")), ("left", ("tparam", "A"))], classes=["eq", "ord", "clone"], value=True, tparams=["A", "B"])
+    return s, ["Node", "Tree", "Big", "Pair", "Phantom", "Leaf", "Holder", "Prec", "PrecM", "W21", "W22", "P22", "Mixed", "Holder2", "Rev"]
 
 
 def inst_args(st, cls, C):
